@@ -211,7 +211,7 @@ fn run(ctx: &RunCtx) -> Report {
         t_send: u64,
         token: Vec<u8>,
     }
-    let (stores, tokens_seen, acks_in_time, acks_late, e301, e302, other_err) = sim.with_trace(|tr| {
+    let (stores, tokens_seen, acks_in_time, acks_late, e301, e302, other_err, first_reply) = sim.with_trace(|tr| {
         let mut stores: Vec<Store> = vec![];
         // address -> tokens delivered to the writer, in order (t_deliver, token)
         let mut tokens_seen: BTreeMap<SocketAddrV4, Vec<(u64, Vec<u8>)>> = BTreeMap::new();
@@ -237,6 +237,8 @@ fn run(ctx: &RunCtx) -> Report {
         }
         let mut in_time = 0usize;
         let mut late = 0usize;
+        // first reply per store request: (arrival time, error code or 0 for an ack)
+        let mut first_reply: BTreeMap<(SocketAddrV4, u32), (u64, i64)> = BTreeMap::new();
         let (mut e301, mut e302, mut other) = (0usize, 0usize, 0usize);
         let mut counted: BTreeSet<(SocketAddrV4, u32)> = BTreeSet::new();
         for d in tr.iter() {
@@ -252,6 +254,7 @@ fn run(ctx: &RunCtx) -> Report {
                 continue; // only the first copy can count
             }
             let rtt = d.t_deliver.unwrap().saturating_sub(s.t_send);
+            first_reply.insert((d.src, s.tid), (d.t_deliver.unwrap(), k.error_code().unwrap_or(0)));
             if k.is_response() {
                 if rtt < 500 * MS && d.t_deliver.unwrap() <= t_done {
                     in_time += 1;
@@ -268,7 +271,7 @@ fn run(ctx: &RunCtx) -> Report {
                 }
             }
         }
-        (stores, tokens_seen, in_time, late, e301, e302, other)
+        (stores, tokens_seen, in_time, late, e301, e302, other, first_reply)
     });
     report.probe("store_requests", stores.len() as u64);
     report.probe("acks_in_time", acks_in_time as u64);
@@ -304,9 +307,26 @@ fn run(ctx: &RunCtx) -> Report {
         let n = stores.len();
         let half = n / 2 + 1;
         let majority_3xx = mutable && (e301 >= half || e302 >= half);
-        let any_3xx_possible_majority = mutable && (e301 + e302 > 0) && (e301.max(e302) * 2 + 2 > n.saturating_sub(acks_in_time + acks_late));
         match res {
             Res::Ok => {
+                // a 3xx majority that was complete while another store request was still outstanding
+                // must have ended the put with that error at once
+                if mutable {
+                    for code in [301i64, 302] {
+                        let mut times: Vec<u64> = first_reply.values().filter(|v| v.1 == code).map(|v| v.0).collect();
+                        times.sort();
+                        if times.len() >= half {
+                            let t_m = times[half - 1];
+                            let outstanding = stores.iter().any(|st| {
+                                let answered = first_reply.get(&(st.dst, st.tid)).map(|v| v.0 <= t_m).unwrap_or(false);
+                                !answered && t_m.saturating_sub(st.t_send) < 450 * MS
+                            });
+                            if outstanding {
+                                report.violate("false-ok", "3xx-majority-reported-as-ok", format!("put_mutable returned Ok although {} of {n} storers (a majority needs {half}) had answered {code} while other store requests were still outstanding", times.len()));
+                            }
+                        }
+                    }
+                }
                 if acks_in_time + acks_late == 0 {
                     report.violate("false-ok", "ok-without-any-ack", format!("put returned Ok but no acknowledgement for it reached the writer ({n} store requests, {other_err} other errors)"));
                 }
@@ -317,8 +337,8 @@ fn run(ctx: &RunCtx) -> Report {
                     report.violate("wrong-error", "concurrency-error-for-non-mutable-put", format!("a {:?} error was returned for a non-mutable put", res));
                 } else if code_seen == 0 {
                     report.violate("wrong-error", "concurrency-error-without-3xx-reply", format!("put returned {:?} but no such error reply to this put was delivered (301: {e301}, 302: {e302})", res));
-                } else if acks_in_time >= 1 && !majority_3xx && !any_3xx_possible_majority {
-                    report.violate("false-error", "3xx-minority-reported-as-failure", format!("put returned {:?} although {acks_in_time} acks arrived in time and only {} of {n} storers answered 3xx", res, e301 + e302));
+                } else if acks_in_time >= 1 && code_seen < half {
+                    report.violate("false-error", "3xx-minority-reported-as-failure", format!("put returned {:?} although {acks_in_time} acks arrived in time and only {code_seen} of {n} storers answered with that code (a majority needs {half})", res));
                 }
             }
             Res::ConflictRisk => report.violate("wrong-error", "conflict-risk-without-concurrent-put", "ConflictRisk returned with no concurrent put".into()),
